@@ -61,8 +61,12 @@ def lines_for(spec, rep, want=("geom", "pic", "scale", "layout", "size")):
         I._state["layers"] = []
         try:
             with time_limit(60):
-                tl = TG.construct(spec, backend)
-                if spec.get("_intruder"):
+                if spec.get("_intruder") and spec.get("_intruder_shares_dict"):
+                    # … and that other timeline is built from the SAME options dict object, which the caller edited in place in between
+                    tl = TG.construct_sharing(spec, backend, spec["_intruder"])
+                else:
+                    tl = TG.construct(spec, backend)
+                if spec.get("_intruder") and not spec.get("_intruder_shares_dict"):
                     # another, unrelated timeline is constructed (not exported) between this one's construction and its export — what this
                     # one draws is determined by its own data and options
                     try:
@@ -257,8 +261,10 @@ def body(pid, tier, seed, rep, only_prop=False, scale=1):
             o["direction"] = rng.choice(["up", "down", "left", "right"])
             rep.count("crowded-variant")
         if k % 3 == 1 and k < n and prev_spec is not None and pid in ("C07", "C08"):
-            spec["_intruder"] = {kk: vv for kk, vv in prev_spec.items() if kk != "_intruder"}
-            rep.count("with-intruder-timeline")
+            spec["_intruder"] = {kk: vv for kk, vv in prev_spec.items() if not kk.startswith("_intruder")}
+            if k % 2 == 0 and spec["kind"] == prev_spec["kind"]:
+                spec["_intruder_shares_dict"] = True
+            rep.count("with-intruder-timeline" + ("-sharing-the-options-dict" if spec.get("_intruder_shares_dict") else ""))
         prev_spec = spec
         if pid == "C08":
             spec["options"].setdefault("labella", {})
